@@ -347,6 +347,12 @@ impl PrivateBatchProver {
 // Helpers
 // -----------------------------------------------------------------------------
 
+/// Verification hook (add-only, guarded): exposes the unchanged private preflight predicate.
+#[cfg(quantus_network_qp_zk_circuits_verif)]
+pub fn verif_ensure_leaf_batch_compatible(proofs: &[ProofWithPublicInputs<F, C, D>]) -> Result<()> {
+    ensure_leaf_batch_compatible(proofs)
+}
+
 /// Check that a set of leaf proofs is mutually compatible under the
 /// private-batch circuit's cross-slot constraints, so an incompatible batch is
 /// rejected at commit time instead of failing after a full proving run
